@@ -353,3 +353,28 @@ def _polytope_case(dim):
 
 _polytope_case(2)
 _polytope_case(3)
+
+
+@case("C06", "action.polygon3d.plane", names("t", 4, 4) + names("a", 4) + names("b", 4) + names("c", 4), mode="field",
+      functions=FUN + ["geometer.shapes.PolygonTensor.__apply__"], assumptions=LEAF, timeout=240, also=("C07",))
+def action_polygon3d_plane(ctx):
+    """the cached supporting plane of a transformed 3D polygon is the plane of the IMAGE vertices"""
+    geometer, gt = _g()
+    import geometer.shapes as gs
+
+    T = ctx.arr("t", 4, 4)
+    ctx.assume(_det_nonzero(ctx, T))
+    t = gt.Transformation(T)
+    a, b, c = (ctx.vec(k, 4) for k in "abc")
+    ctx.assume(ctx.neg(dependent(ctx, [a, b, c])))
+    # ghost lemma: the images of independent points are independent (Cauchy-Binet): not needed by the clauses below,
+    # the join of the images is evaluated by the real code under the path condition
+    with ctx.stubs():
+        tri = gs.Triangle(*[geometer.Point(v) for v in (a, b, c)])
+        plane_before = tolist(tri._plane.array)
+        tt = t * tri
+    ctx.ensure("kind", type(tt) is gs.Triangle and tt.pdim == 2 and tuple(tt.shape) == (3, 4))
+    ctx.ensure("C07:vertices-are-images-in-order", ctx.conj([_eq_all(ctx, tt.array[k], rho_cov(T, v)) for k, v in enumerate((a, b, c))]), prop="C07")
+    ctx.ensure("_plane-contains-the-image-vertices", ctx.conj([on_hyper(ctx, tt._plane.array, rho_cov(T, v)) for v in (a, b, c)]))
+    ctx.ensure("_plane-nonzero", ctx.neg(ctx.all_zero(tt._plane.array)))
+    ctx.ensure("operand-_plane-untouched", _eq_all(ctx, tri._plane.array, plane_before))
